@@ -10,6 +10,7 @@ import (
 	"fmt"
 	"os"
 	"strconv"
+	"verif/internal/dshared"
 
 	"verif/internal/core"
 	"verif/internal/dval"
@@ -24,6 +25,8 @@ func main() {
 	}
 	defer cleanup()
 	switch os.Args[1] {
+	case "raceworker":
+		dshared.RaceWorker()
 	case "worker":
 		core.WorkerMain()
 	case "gen":
@@ -73,8 +76,8 @@ func main() {
 			exit(2)
 		}
 		var rp struct {
-			Property   string    `json:"property"`
-			Class      string    `json:"class"`
+			Property   string            `json:"property"`
+			Class      string            `json:"class"`
 			EvalModule string            `json:"eval_module"`
 			EvalEnv    map[string]string `json:"eval_env"`
 			Isolated   bool              `json:"isolated"`
